@@ -1,23 +1,29 @@
 """
 C18 -- reduce_cell returns a primitive cell of the same lattice.
 
-Data-flow and layout rules (E2-style kinds decided with E3 where an expression is
-straight-line):
-  vectors   every candidate is dot(a_mat, [i,j,k]) with a_mat = form_a_mat(unit_cell): an integer
-            combination of the input basis (columns of A are the lattice vectors: C01); the list is
-            sorted by length and the zero vector is skipped
-  guards    the second / third pick are guarded by a positive cross-product / distance threshold
-            (non-collinear, non-coplanar => determinant != 0)
-  layout    the three picked vectors are stored as ROWS or COLUMNS of the matrix handed to
-            a_to_cell, and a_to_cell (decided by E3 on its own body) reads lattice vectors from
-            the same layout
+reduce_cell is *evaluated* abstractly (E7 with three summaries for its data-dependent parts):
+  enumeration  the candidate table is built concretely over the integer indices with A = form_a_mat(cell) symbolic; a length
+               |v| is a tagged atom that remembers v
+  sort         indexing the table with argsort(<its length column>) yields a *sorted table*: row r is the symbolic integer
+               triple S[r,0..2], known to be one of the enumerated rows, lengths ascending
+  picks        a loop over the sorted table with a data-dependent guard is summarised as "first index at which the guard
+               holds": one iteration is run with the guard false (it must leave no trace) and one with the guard true on a
+               symbolic index (it must store and break)
+Decided on the resulting normal forms:
+  vectors      every table row is [i, j, k, |A.(i,j,k)|]; all index triples with |u|,|v|,|w| <= 2 are present; the three picks
+               are A.S[1], A.S[i*], A.S[j*] (S[0] is the zero vector), the second search starts no later than the first hit
+  guards       the picks are guarded by |cross(v_i, v_0)| > positive and (cross(v_i, v_0) . v_j)/|cross| > positive
+  layout       the picked vectors are the ROWS or COLUMNS of the matrix handed to a_to_cell, whose own body (E3) reads lattice
+               vectors from the same layout
 """
 import ast
+import itertools
 
 from xfabsa import core, numeric as N
 from xfabsa.core import AnalysisError
-from xfabsa.poly import Rat
-from xfabsa.symeval import Evaluator, sym_array, Arr, Opaque, scalar, materialise
+from xfabsa.poly import Rat, func_atom, single_atom, POSITIVE_SCALE_ATOMS
+from xfabsa.symeval import Evaluator, sym_array, Arr, Opaque, scalar, materialise, const_int, _Break, _Continue, RaiseReached
+from xfabsa.objeval import ObjEvaluator
 
 
 def a_to_cell_layout(mod):
@@ -35,8 +41,280 @@ def a_to_cell_layout(mod):
     raise AnalysisError("a_to_cell: first result is neither the length of column 0 nor of row 0")
 
 
+class Perm:
+    """argsort(keys): an unknown permutation that makes keys ascending"""
+
+    def __init__(self, keys):
+        self.keys = keys
+
+
+class SortedTable:
+    """rows of `source` reordered so that column `col` ascends; entries of row r are the atoms S[r,c]"""
+
+    def __init__(self, source, col):
+        self.source = source          # list of rows (lists of Rat)
+        self.col = col
+        self.n = len(source)
+        self.width = len(source[0]) if source else 0
+
+    def row(self, r):
+        tag = str(r) if isinstance(r, int) else r
+        return [Rat.atom("S[%s,%d]" % (tag, c)) for c in range(self.width)]
+
+
+class RoundingFilter(Exception):
+    def __init__(self, text, node):
+        Exception.__init__(self, text)
+        self.node = node
+
+
+class ReduceEval(ObjEvaluator):
+    def __init__(self, mod, cell):
+        ObjEvaluator.__init__(self, mod, inline=set(), call_policy=self.cpol, max_depth=8)
+        self.cell = cell
+        self.A = sym_array("A", (3, 3))
+        self.norm_of = {}            # tag atom -> vector
+        self.phase = "enumerate"
+        self.table = None
+        self.mode = None             # "miss" / "hit" inside a summarised loop
+        self.guards = []             # (loop number, quantity, operator, literal, node) met in hit mode
+        self.loops = []              # dict per summarised loop
+        self.handed = None           # (snapshot of the argument of a_to_cell)
+        self.form_calls = []
+        self.filter_seen = None
+
+    # ---- callees
+    def cpol(self, name, args, kwargs, node):
+        if name == "form_a_mat":
+            self.form_calls.append(args)
+            return self.A
+        if name == "a_to_cell":
+            A = args[0] if isinstance(args[0], Arr) else materialise(args[0])
+            if A is None or A.shape != (3, 3):
+                raise AnalysisError("reduce_cell: argument of a_to_cell is not an explicit 3x3 array")
+            self.handed = [[scalar(x) for x in row] for row in A.data]
+            return Opaque("a_to_cell(reduced)", (6,))
+        return NotImplemented
+
+    # ---- numpy hooks
+    def _np_call(self, name, args, kwargs, node):
+        if name == "linalg.norm" and len(args) == 1 and not kwargs:
+            V = args[0] if isinstance(args[0], Arr) else materialise(args[0])
+            if V is not None and len(V.shape) == 1:
+                vec = [scalar(x) for x in V.data]
+                for tag, v in self.norm_of.items():
+                    if len(v) == len(vec) and all(a.equals(b) for a, b in zip(v, vec)):
+                        return Rat.atom(tag)
+                tag = "norm#%d" % len(self.norm_of)
+                self.norm_of[tag] = vec
+                return Rat.atom(tag)
+        if name == "argsort" and len(args) == 1 and not kwargs:
+            K = args[0] if isinstance(args[0], Arr) else materialise(args[0])
+            if K is None or len(K.shape) != 1:
+                raise AnalysisError("reduce_cell: argsort of a value that is not an explicit vector (line %d)" % node.lineno)
+            return Perm([scalar(x) for x in K.data])
+        if name == "arange" and 1 <= len(args) <= 2 and not kwargs:
+            ints = [const_int(a) for a in args]
+            if all(i is not None for i in ints):
+                return Arr([Rat.const(i) for i in range(*ints)])
+        if name in ("concatenate", "vstack") and len(args) == 1 and isinstance(args[0], (list, tuple)):
+            parts = []
+            for x in args[0]:
+                P = x if isinstance(x, Arr) else materialise(x)
+                if P is None:
+                    raise AnalysisError("reduce_cell: concatenation of a non-explicit array (line %d)" % node.lineno)
+                if 0 in P.shape or P.shape == ():
+                    continue
+                parts.append(P)
+            if not parts:
+                return Arr([])
+            out = []
+            for P in parts:
+                if len(P.shape) != 2:
+                    raise AnalysisError("reduce_cell: concatenation of rank %d (line %d)" % (len(P.shape), node.lineno))
+                out.extend([list(r) for r in P.data])
+            return Arr(out)
+        return ObjEvaluator._np_call(self, name, args, kwargs, node)
+
+    def builtin(self, name, args, kwargs, node):
+        if name == "len" and args and isinstance(args[0], SortedTable):
+            return Rat.const(args[0].n)
+        if name == "range" and any(const_int(a) is None for a in args):
+            return ("symbolic-range", list(args))
+        return ObjEvaluator.builtin(self, name, args, kwargs, node)
+
+    # ---- subscripts: the sort, and rows of the sorted table
+    def e_Subscript(self, node, env):
+        base = self.eval(node.value, env)
+        elts = node.slice.elts if isinstance(node.slice, ast.Tuple) else [node.slice]
+        if isinstance(base, Arr) and elts and not isinstance(elts[0], ast.Slice):
+            first = self.eval(elts[0], env)
+            if isinstance(first, Perm):
+                rest = elts[1:]
+                if any(not (isinstance(e, ast.Slice) and e.lower is None and e.upper is None and e.step is None) for e in rest):
+                    raise AnalysisError("reduce_cell: permuted table indexed with something else than full slices (line %d)" % node.lineno)
+                rows = [[scalar(x) for x in r] for r in base.data]
+                cols = [c for c in range(len(rows[0])) if len(first.keys) == len(rows) and all(k.equals(r[c]) for k, r in zip(first.keys, rows))]
+                if not cols:
+                    raise AnalysisError("reduce_cell: the table is reordered by argsort of something that is not one of its columns (line %d)"
+                                        % node.lineno)
+                self.table = SortedTable(rows, cols[-1])
+                self.phase = "picking"
+                return self.table
+        if isinstance(base, SortedTable):
+            if not elts:
+                raise AnalysisError("reduce_cell: empty subscript")
+            r = self.eval(elts[0], env)
+            ri = const_int(r)
+            if ri is None:
+                a = single_atom(scalar(r)) if isinstance(r, Rat) else None
+                if a is None or not a.endswith("*"):
+                    raise AnalysisError("reduce_cell: sorted table indexed by `%s` (line %d)" % (core.unparse(elts[0]), node.lineno))
+                row = base.row(a)
+            else:
+                if not (0 <= ri < base.n):
+                    raise AnalysisError("reduce_cell: row %d of the sorted table (line %d)" % (ri, node.lineno))
+                row = base.row(ri)
+            if len(elts) == 1:
+                return Arr(row)
+            if len(elts) == 2:
+                e = elts[1]
+                if isinstance(e, ast.Slice):
+                    lo = const_int(self.eval(e.lower, env)) if e.lower is not None else None
+                    hi = const_int(self.eval(e.upper, env)) if e.upper is not None else None
+                    return Arr(row[slice(lo, hi)])
+                ci = const_int(self.eval(e, env))
+                if ci is not None:
+                    return row[ci]
+            raise AnalysisError("reduce_cell: unsupported subscript of the sorted table (line %d)" % node.lineno)
+        return ObjEvaluator.e_Subscript(self, node, env)
+
+    # ---- comparisons: integer filters fold; real-valued ones are the guards (or a prune of the enumeration)
+    def compare(self, op, a, b, node):
+        if isinstance(a, (Rat, int, float)) and isinstance(b, (Rat, int, float)) and not isinstance(a, bool) and not isinstance(b, bool):
+            sa, sb = scalar(a), scalar(b)
+            if not (sa - sb).is_const():
+                if self.phase == "enumerate":
+                    return self.enumeration_filter(sa, sb, node)
+                if self.mode is None:
+                    raise AnalysisError("reduce_cell: data-dependent test `%s` outside a search loop (line %d)"
+                                        % (core.unparse(node)[:60], node.lineno))
+                # orientation: quantity OP literal
+                if sb.is_const():
+                    q, lit, opn = sa, sb.const_value(), type(op).__name__
+                elif sa.is_const():
+                    q, lit = sb, sa.const_value()
+                    opn = {"Gt": "Lt", "GtE": "LtE", "Lt": "Gt", "LtE": "GtE"}.get(type(op).__name__, type(op).__name__)
+                else:
+                    raise AnalysisError("reduce_cell: guard `%s` does not compare with a literal (line %d)" % (core.unparse(node)[:60], node.lineno))
+                if opn not in ("Gt", "GtE", "Lt", "LtE"):
+                    raise AnalysisError("reduce_cell: guard operator %s (line %d)" % (opn, node.lineno))
+                if self.mode == "hit":
+                    self.guards.append((len(self.loops), q, opn, lit, node))
+                # hit: the quantity is large (beyond any tolerance); miss: it is (numerically) zero
+                large = self.mode == "hit"
+                return large if opn in ("Gt", "GtE") else not large
+        return ObjEvaluator.compare(self, op, a, b, node)
+
+    def enumeration_filter(self, sa, sb, node):
+        """a real-valued test while the candidates are enumerated: does it compare two mathematically EQUAL quantities for the
+        input's own basis vectors (then rounding decides whether a vector of the reduced basis is dropped)?"""
+        tags = [a for a in (sa - sb).atoms() if a in self.norm_of]
+        if len(tags) != 1:
+            raise AnalysisError("reduce_cell: enumeration filter `%s` does not fold on integers (line %d)" % (core.unparse(node)[:60], node.lineno))
+        tag = Rat.atom(tags[0])
+        other = sb if sa.equals(tag) else sa if sb.equals(tag) else None
+        if other is None:
+            raise AnalysisError("reduce_cell: enumeration filter `%s` is not a comparison of a candidate's length (line %d)"
+                                % (core.unparse(node)[:60], node.lineno))
+        edges = ["%s[%d]" % (self.cell.base, q) for q in range(3)]
+        added = [a for a in edges if a not in POSITIVE_SCALE_ATOMS]
+        POSITIVE_SCALE_ATOMS.extend(added)
+        try:
+            Aex = Evaluator(self.mod, inline=True).call_function("form_a_mat", [self.cell])
+            Aex = Aex if isinstance(Aex, Arr) else materialise(Aex)
+            hit = False
+            for axis in range(3):
+                col = [scalar(Aex.data[r][axis]) for r in range(3)]
+                length = N.ref("sqrt(a*a+b*b+c*c)", {"a": col[0], "b": col[1], "c": col[2]})
+                if length.equals(other):
+                    hit = True
+                info = None
+                from xfabsa.poly import atom_info
+                info = atom_info(other)
+                if info is not None and info[0] in ("max", "min") and any(length.equals(x) for x in info[1]):
+                    hit = True
+        finally:
+            for a in added:
+                POSITIVE_SCALE_ATOMS.remove(a)
+        if hit:
+            raise RoundingFilter(core.unparse(node), node)
+        raise AnalysisError("reduce_cell: enumeration filter `%s` does not fold on integers (line %d)" % (core.unparse(node)[:60], node.lineno))
+
+    # ---- loops over the sorted table: first-hit summary
+    def exec_stmt(self, st, env):
+        if isinstance(st, ast.For) and self.phase == "picking":
+            it = self.eval(st.iter, env)
+            start = None
+            if isinstance(it, tuple) and it and it[0] == "symbolic-range":
+                start = it[1][0] if len(it[1]) >= 2 else Rat.const(0)
+            elif isinstance(it, list) and it and all(const_int(x) is not None for x in it) and len(it) > 8:
+                start = scalar(it[0])
+            if start is not None:
+                return self.summarise_loop(st, env, start)
+        return ObjEvaluator.exec_stmt(self, st, env)
+
+    def summarise_loop(self, st, env, start):
+        k = len(self.loops)
+        idx = Rat.atom("idx%d*" % k)
+        info = {"start": start, "index": idx, "node": st, "broke": False, "trace": None}
+        # a non-hit iteration must leave no trace in the arrays that outlive the loop
+        probe = {n_: (v.copy() if isinstance(v, Arr) else v) for n_, v in env.items()}
+        before = {n_: v.key() for n_, v in probe.items() if isinstance(v, Arr)}
+        same_obj = {n_: id(v) for n_, v in probe.items() if isinstance(v, Arr)}
+        self.mode = "miss"
+        try:
+            self.assign(st.target, idx, probe)
+            try:
+                self.exec_block(st.body, probe)
+            except (_Break, _Continue):
+                pass
+        finally:
+            self.mode = None
+        # (a name that is simply rebound is a temporary of the iteration; a store INTO an array made before the loop is a trace)
+        changed = [n_ for n_, key in before.items() if isinstance(probe.get(n_), Arr) and id(probe[n_]) == same_obj[n_]
+                   and probe[n_].key() != key]
+        info["trace"] = changed
+        self.mode = "hit"
+        self.loops.append(info)
+        try:
+            self.assign(st.target, idx, env)
+            try:
+                self.exec_block(st.body, env)
+            except _Break:
+                info["broke"] = True
+            except _Continue:
+                pass
+        finally:
+            self.mode = None
+        return None
+
+
+def lin(A, s):
+    """A . s for A the symbolic 3x3 and s three normal forms"""
+    return [sum((Rat.atom("A[%d,%d]" % (r, c)) * s[c] for c in range(3)), Rat.const(0)) for r in range(3)]
+
+
+def cross(a, b):
+    return [a[1] * b[2] - a[2] * b[1], a[2] * b[0] - a[0] * b[2], a[0] * b[1] - a[1] * b[0]]
+
+
+def veq(a, b):
+    return len(a) == len(b) and all(x.equals(y) for x, y in zip(a, b))
+
+
 def run(ctx):
-    ctx.rule("vectors", "candidates are dot(form_a_mat(cell), [i,j,k]); sorted by norm; zero vector skipped")
+    ctx.rule("vectors", "table rows are [i,j,k,|A.(i,j,k)|] covering |u|,|v|,|w| <= 2; sorted by length; picks are A.S[1], A.S[i*], A.S[j*]")
     ctx.rule("guards", "second and third pick guarded by positive thresholds on |cross| and on the distance to the plane")
     ctx.rule("layout", "layout in which the picked vectors are stored == layout a_to_cell reads")
     for rel, short, two_pi in N.MODULES:
@@ -44,219 +322,131 @@ def run(ctx):
         fn = mod.func("reduce_cell")
         ctx.saw(mod, fn)
         where = core.loc(mod, fn)
-        npn = "|".join(mod.np_alias)
-        body = core.body_wo_doc(fn)
-        src = {i: core.unparse(s).replace(" ", "") for i, s in enumerate(body)}
-        # names
-        amat = None
-        for s in body:
-            if isinstance(s, ast.Assign) and isinstance(s.value, ast.Call) and getattr(s.value.func, "id", "") == "form_a_mat" \
-                    and isinstance(s.value.args[0], ast.Name) and s.value.args[0].id == fn.args.args[0].arg:
-                amat = s.targets[0].id
-        if amat is None:
-            raise AnalysisError("%s.reduce_cell: a_mat = form_a_mat(unit_cell) not found" % short)
-        # candidate vectors: every dot(...) in the function is dot(a_mat, <integer triple or row slice of res>)
-        dots = [n_ for n_ in ast.walk(fn) if isinstance(n_, ast.Call) and isinstance(n_.func, ast.Attribute)
-                and n_.func.attr == "dot" and isinstance(n_.func.value, ast.Name) and n_.func.value.id in mod.np_alias]
-        lattice_dots = [d for d in dots if isinstance(d.args[0], ast.Name) and d.args[0].id == amat]
-        other = [d for d in dots if d not in lattice_dots]
-        ok_vec = len(lattice_dots) >= 4 and all(
-            core.unparse(d.args[1]).replace(" ", "") in ("%s.array([i,j,k])" % a for a in mod.np_alias)
-            or ":3]" in core.unparse(d.args[1]).replace(" ", "") for d in lattice_dots)
-        # the other dot is the plane distance dot(kryds, tmp)
-        ctx.check(ok_vec and len(other) <= 1, "C18:vectors:%s.combination" % short,
-                  "lattice vectors are not all formed as dot(a_mat, integer triple): %s"
-                  % [core.unparse(d)[:40] for d in dots], where, sample={"dots": [core.unparse(d) for d in lattice_dots[:2]]})
-        # enumeration range (recorded) and res rows [i,j,k,norm]
-        rng = [core.unparse(n_.iter).replace(" ", "") for n_ in ast.walk(fn) if isinstance(n_, ast.For) and "arange" in core.unparse(n_.iter)]
-        ctx.extra.setdefault("search_ranges", {})[short] = rng
-        # rows [i, j, k, |A.(i,j,k)|]: the fourth entry is norm(<the candidate vector>) directly or through a local name
-        ok_rows = False
-        for st_, b_ in core.find_stmt("M_res = NP.concatenate((M_res, [[M_i, M_j, M_k, X_len]]))", fn, {}, mod.np_alias):
-            lenexpr = st_.value.args[0].elts[1].elts[0].elts[3]
-            if isinstance(lenexpr, ast.Name):
-                defs = [a_ for a_ in ast.walk(fn) if isinstance(a_, ast.Assign) and isinstance(a_.targets[0], ast.Name)
-                        and a_.targets[0].id == lenexpr.id]
-                lenexpr = defs[-1].value if len(defs) == 1 else None
-            if lenexpr is not None and core.match_expr("NP.linalg.norm(M_v)", lenexpr, {}, mod.np_alias):
-                vname = lenexpr.args[0].id
-                vdefs = [a_ for a_ in ast.walk(fn) if isinstance(a_, ast.Assign) and isinstance(a_.targets[0], ast.Name)
-                         and a_.targets[0].id == vname and a_.lineno < st_.lineno]
-                ok_rows = bool(vdefs) and core.match_expr("NP.dot(%s, NP.array([%s, %s, %s]))" % (amat, b_["M_i"], b_["M_j"], b_["M_k"]),
-                                                          vdefs[-1].value, {}, mod.np_alias) is not None
-        ctx.check(ok_rows and len(rng) == 3 and len(set(rng)) == 1, "C18:vectors:%s.enumeration" % short,
-                  "candidates are not enumerated as rows [i, j, k, |A.(i,j,k)|] over one integer range in each index (%s)" % rng, where)
-        # coverage of the promised search range |u|,|v|,|w| <= 2 with the default uvw: every triple must reach the append
-        loops = [n_ for n_ in ast.walk(fn) if isinstance(n_, ast.For) and "arange" in core.unparse(n_.iter)]
-        inner = [l_ for l_ in loops if not any(isinstance(x_, ast.For) for x_ in ast.walk(l_) if x_ is not l_)]
-        uvw_name = fn.args.args[1].arg if len(fn.args.args) > 1 else None
-        uvw_def = ast.literal_eval(fn.args.defaults[0]) if fn.args.defaults else None
-        dropped = []
-        cover_ok = False
-        if len(loops) == 3 and len(inner) == 1 and uvw_def is not None:
-            def bounds(it):
-                a_ = it.args
-                env_ = {uvw_name: Rat.const(uvw_def)}
-                vals = [scalar(Evaluator(mod, inline=set()).eval(x_, env_)).const_value() for x_ in a_]
-                return range(int(vals[0]), int(vals[1])) if len(vals) == 2 else range(int(vals[0]))
-            try:
-                rngs = {l_.target.id: bounds(l_.iter) for l_ in loops}
-            except Exception:
-                raise AnalysisError("%s.reduce_cell: enumeration ranges are not arange(<int expr of uvw>)" % short)
-            cover_ok = all(set(range(-2, 3)) <= set(r_) for r_ in rngs.values())
-            names = [l_.target.id for l_ in loops]
-
-            rounding = []
-
-            def real_filter(st_, env_):
-                """a filter on real-valued quantities: is it a comparison of two mathematically EQUAL quantities for a unit
-                triple (then rounding decides whether a basis vector of the input survives)?"""
-                from xfabsa.poly import POSITIVE_SCALE_ATOMS
-                t_ = st_.test
-                if not (isinstance(t_, ast.Compare) and len(t_.ops) == 1 and isinstance(t_.ops[0], (ast.Lt, ast.LtE, ast.Gt, ast.GtE))):
-                    return False
-                uc_ = sym_array(fn.args.args[0].arg, (6,))
-                edges = ["%s[%d]" % (fn.args.args[0].arg, q_) for q_ in range(3)]
-                for a_ in edges:
-                    if a_ not in POSITIVE_SCALE_ATOMS:
-                        POSITIVE_SCALE_ATOMS.append(a_)
-                try:
-                    hit = False
-                    for axis in range(3):
-                        e_ = Evaluator(mod, inline=True)
-                        loc_ = {fn.args.args[0].arg: uc_, uvw_name: Rat.const(uvw_def)}
-                        for nm_, v_ in zip(names, [1 if q_ == axis else 0 for q_ in range(3)]):
-                            loc_[nm_] = Rat.const(v_)
-                        # run the statements of the function that precede the loops (a_mat, bounds) and of the loop body before the filter
-                        for pre in core.body_wo_doc(fn):
-                            if isinstance(pre, ast.For):
-                                break
-                            try:
-                                e_.exec_stmt(pre, loc_)
-                            except AnalysisError:
-                                pass
-                        for pre in inner[0].body:
-                            if pre is st_:
-                                break
-                            e_.exec_stmt(pre, loc_)
-                        l_ = scalar(e_.eval(t_.left, loc_))
-                        r_ = e_.eval(t_.comparators[0], loc_)
-                        rk = r_.key() if hasattr(r_, "key") else str(r_)
-                        for a_ in edges:
-                            if l_.equals(Rat.atom(a_)) and a_.split("[")[0] in rk and "max" in rk:
-                                hit = True
-                            if hasattr(r_, "equals") and isinstance(r_, Rat) and l_.equals(r_):
-                                hit = True
-                    return hit
-                finally:
-                    for a_ in edges:
-                        if a_ in POSITIVE_SCALE_ATOMS:
-                            POSITIVE_SCALE_ATOMS.remove(a_)
-
-            def reaches_append(stmts, env_):
-                for st_ in stmts:
-                    if isinstance(st_, ast.If):
-                        try:
-                            t_ = Evaluator(mod, inline=set()).eval(st_.test, env_)
-                        except AnalysisError:
-                            t_ = None
-                        if not isinstance(t_, bool):
-                            if real_filter(st_, env_):
-                                rounding.append(core.unparse(st_.test))
-                                return False
-                            raise AnalysisError("%s.reduce_cell: enumeration filter `%s` does not fold on integers" % (short, core.unparse(st_.test)))
-                        r_ = reaches_append(st_.body if t_ else st_.orelse, env_)
-                        if r_ is not None:
-                            return r_
-                    elif isinstance(st_, ast.Continue):
-                        return False
-                    elif isinstance(st_, ast.Assign) and "concatenate" in core.unparse(st_.value) and st_.targets[0].id == "res":
-                        return True
-                return None
-            import itertools
-            for trip in itertools.product(range(-2, 3), repeat=3):
-                env_ = {nm_: Rat.const(v_) for nm_, v_ in zip(names, trip)}
-                env_[uvw_name] = Rat.const(uvw_def)
-                if reaches_append(inner[0].body, env_) is not True:
-                    dropped.append(trip)
-        if cover_ok and rounding:
+        cell = sym_array(fn.args.args[0].arg, (6,))
+        ev = ReduceEval(mod, cell)
+        try:
+            ev.call_function("reduce_cell", [cell])
+        except RoundingFilter as rf:
             ctx.fail("C18:vectors:%s.coverage" % short,
                      "candidates are pruned by `%s`, which for the input's own basis vectors compares two mathematically equal "
                      "quantities (|A.e_k| and the cell edge it was computed from) without tolerance: rounding decides whether a vector "
-                     "of the reduced basis is dropped" % rounding[0], where)
-        else:
-          ctx.check(cover_ok and not dropped, "C18:vectors:%s.coverage" % short,
+                     "of the reduced basis is dropped" % str(rf), core.loc(mod, rf.node))
+            continue
+        if ev.table is None or ev.handed is None:
+            raise AnalysisError("%s.reduce_cell: no sorted candidate table / no call of a_to_cell was met" % short)
+        ctx.check(len(ev.form_calls) >= 1 and all(a[0] is cell for a in ev.form_calls), "C18:vectors:%s.basis" % short,
+                  "the lattice basis is not form_a_mat(unit_cell)", where)
+        # ---- table rows
+        rows = ev.table.source
+        triples, badrow = set(), None
+        for r in rows:
+            ints = [const_int(x) for x in r[:3]]
+            tag = single_atom(r[3]) if len(r) == 4 else None
+            okr = len(r) == 4 and all(i is not None for i in ints)
+            if okr:
+                want = lin(ev.A, [Rat.const(i) for i in ints])
+                if ints == [0, 0, 0]:
+                    okr = r[3].is_zero() or (tag in ev.norm_of and veq(ev.norm_of[tag], want))
+                else:
+                    okr = tag in ev.norm_of and veq(ev.norm_of[tag], want)
+            if not okr and badrow is None:
+                badrow = [N.short(x, 40) for x in r]
+            if okr:
+                triples.add(tuple(ints))
+        ctx.check(badrow is None, "C18:vectors:%s.combination" % short,
+                  "lattice vectors are not all formed as dot(a_mat, integer triple): a table row is %s, not [i, j, k, |A.(i,j,k)|]" % badrow,
+                  where, sample={"rows": len(rows), "row0": [N.short(x, 30) for x in rows[0]]})
+        need = set(itertools.product(range(-2, 3), repeat=3))
+        dropped = sorted(need - triples)
+        ctx.check(not dropped, "C18:vectors:%s.coverage" % short,
                   "the enumeration does not visit every index triple with |u|,|v|,|w| <= 2 for the default search range: "
                   "dropped %d of 125, e.g. %s" % (len(dropped), dropped[:3]), where,
-                  sample={"triples_checked": 125, "dropped": len(dropped)})
-        srt = [s for s in src.values() if "argsort(res[:,3])" in s and s.startswith("res=res[")]
-        ctx.check(len(srt) == 1, "C18:vectors:%s.sorted" % short, "the candidate list is not sorted by its length column", where)
-        # stores into the reduced matrix
-        red = None
-        stores = []
-        for n_ in ast.walk(fn):
-            if isinstance(n_, ast.Assign) and isinstance(n_.targets[0], ast.Subscript) and isinstance(n_.targets[0].value, ast.Name):
-                nm = n_.targets[0].value.id
-                sl = core.unparse(n_.targets[0].slice).replace(" ", "")
-                if nm == "res":
-                    continue
-                red = red or nm
-                if nm == red:
-                    if sl in ("0", "1", "2"):
-                        stores.append(("rows", int(sl), n_))
-                    elif sl in (":,0", ":,1", ":,2"):
-                        stores.append(("cols", int(sl[-1]), n_))
-                    else:
-                        raise AnalysisError("%s.reduce_cell: store `%s` of unrecognised layout" % (short, core.unparse(n_.targets[0])))
-        if red is None or sorted(s[1] for s in stores) != [0, 1, 2]:
-            raise AnalysisError("%s.reduce_cell: the three stores into the reduced matrix were not found" % short)
-        kinds = {s[0] for s in stores}
-        if len(kinds) != 1:
-            raise AnalysisError("%s.reduce_cell: mixed row/column stores" % short)
-        stored = kinds.pop()
-        # first pick skips the zero vector: index 1 of the sorted list
-        first = [s for s in stores if s[1] == 0][0][2]
-        ctx.check("res[1,:3]" in core.unparse(first.value).replace(" ", ""), "C18:vectors:%s.first" % short,
-                  "the first vector is not the shortest non-zero candidate (res[1])", core.loc(mod, first))
-        # guards
-        ifs = [n_ for n_ in ast.walk(fn) if isinstance(n_, ast.If)]
-        thr = []
-        for n_ in ifs:
-            t = n_.test
-            if isinstance(t, ast.Compare) and len(t.ops) == 1 and isinstance(t.ops[0], ast.Gt) \
-                    and isinstance(t.comparators[0], ast.Constant):
-                has_store = any(isinstance(x, ast.Assign) and isinstance(x.targets[0], ast.Subscript)
-                                and getattr(x.targets[0].value, "id", "") == red for x in n_.body)
-                has_break = any(isinstance(x, ast.Break) for x in n_.body)
-                if has_store and has_break:
-                    thr.append((core.unparse(t.left).replace(" ", ""), float(t.comparators[0].value)))
-        okg = len(thr) == 2 and all(v > 0 for _l, v in thr) and any("cross" in l or "kryds" in l for l, _v in thr) \
-            and any("dist" in l for l, _v in thr)
+                  sample={"triples_checked": 125, "dropped": len(dropped), "table_rows": len(rows)})
+        ctx.check(ev.table.col == 3, "C18:vectors:%s.sorted" % short, "the candidate list is not sorted by its length column", where)
+        # ---- picks
+        v0 = lin(ev.A, ev.table.row(1)[:3])
+        loops = ev.loops
+        okl = len(loops) == 2 and all(l["broke"] for l in loops) and not any(l["trace"] for l in loops)
+        if not okl:
+            ctx.fail("C18:guards:%s" % short,
+                     "the two searches over the sorted candidates are not `first index at which the guard holds: store and stop` "
+                     "(loops %d, stop on hit %s, arrays changed by a non-hit iteration %s)"
+                     % (len(loops), [l["broke"] for l in loops], [l["trace"] for l in loops]), where)
+            continue
+        i_, j_ = "idx0*", "idx1*"
+        v1 = lin(ev.A, ev.table.row(i_)[:3])
+        v2 = lin(ev.A, ev.table.row(j_)[:3])
+        H = ev.handed
+        as_rows = all(veq(H[k], v) for k, v in enumerate((v0, v1, v2)))
+        as_cols = all(veq([H[r][k] for r in range(3)], v) for k, v in enumerate((v0, v1, v2)))
+        first_ok = veq(H[0], v0) or veq([H[r][0] for r in range(3)], v0)
+        zero_first = veq(H[0], lin(ev.A, ev.table.row(0)[:3])) or veq([H[r][0] for r in range(3)], lin(ev.A, ev.table.row(0)[:3]))
+        ctx.check(first_ok, "C18:vectors:%s.first" % short,
+                  "the first vector is not the shortest non-zero candidate (sorted row 1)%s" % (": it is sorted row 0, the zero vector" if zero_first else ""),
+                  where)
+        if not (as_rows or as_cols):
+            if first_ok:
+                ctx.fail("C18:vectors:%s.picks" % short, "the matrix handed to a_to_cell does not hold A.S[1], A.S[i*], A.S[j*] as its rows or columns", where)
+            continue
+        ctx.ok("C18:vectors:%s.picks" % short)
+        # second search starts no later than just after the first hit
+        st2 = scalar(loops[1]["start"])
+        i_atom = Rat.atom(i_)
+        ok_start = st2.equals(i_atom) or st2.equals(i_atom + 1) or (st2.is_const() and st2.const_value() <= 2)
+        ctx.check(ok_start, "C18:vectors:%s.search-order" % short,
+                  "the search for the third vector starts at sorted row %s: shorter candidates after the second pick are skipped" % N.short(st2), where)
+        st1 = scalar(loops[0]["start"])
+        ctx.check(st1.is_const() and st1.const_value() <= 2, "C18:vectors:%s.search-start" % short,
+                  "the search for the second vector starts at sorted row %s" % N.short(st1), where)
+        # ---- guards
+        g1 = [g for g in ev.guards if g[0] == 1]
+        g2 = [g for g in ev.guards if g[0] == 2]
+        k = cross(v1, v0)
+        sumabs = func_atom("abs", k[0]) + func_atom("abs", k[1]) + func_atom("abs", k[2])
+        sumabs_n = func_atom("abs", -k[0]) + func_atom("abs", -k[1]) + func_atom("abs", -k[2])
+        triple = k[0] * v2[0] + k[1] * v2[1] + k[2] * v2[2]
+
+        def is_cross_size(q):
+            if q.equals(sumabs) or q.equals(sumabs_n):
+                return True
+            a = single_atom(q)
+            if a in ev.norm_of and (veq(ev.norm_of[a], k) or veq(ev.norm_of[a], [-x for x in k])):
+                return True
+            return False
+
+        def is_plane_distance(q):
+            for tag, vec in ev.norm_of.items():
+                if veq(vec, k) or veq(vec, [-x for x in k]):
+                    nk = Rat.atom(tag)
+                    for cand in (q, func_atom("abs", q) if False else q):
+                        if (cand * nk).equals(triple) or (cand * nk).equals(-triple):
+                            return True
+            info = None
+            from xfabsa.poly import atom_info
+            info = atom_info(q)
+            if info is not None and info[0] == "abs":
+                return is_plane_distance(info[1][0])
+            return q.equals(triple) or q.equals(-triple)
+        okg = (len(g1) == 1 and len(g2) == 1 and g1[0][2] in ("Gt", "GtE") and g2[0][2] in ("Gt", "GtE")
+               and g1[0][3] > 0 and g2[0][3] > 0 and is_cross_size(g1[0][1]) and is_plane_distance(g2[0][1]))
         ctx.check(okg, "C18:guards:%s" % short,
-                  "second/third pick are not guarded by positive thresholds on |cross product| and plane distance: %s" % thr, where)
-        # layout
-        ret = [n_ for n_ in ast.walk(fn) if isinstance(n_, ast.Return)]
-        if len(ret) != 1 or not (isinstance(ret[0].value, ast.Call) and getattr(ret[0].value.func, "id", "") == "a_to_cell"):
-            raise AnalysisError("%s.reduce_cell: does not return a_to_cell(...)" % short)
-        arg = ret[0].value.args[0]
-        passed = None
-        if isinstance(arg, ast.Name) and arg.id == red:
-            passed = stored
-        else:
-            txt = core.unparse(arg).replace(" ", "")
-            if txt in ("%s.T" % red, "%s.transpose()" % red) or any(txt == "%s.transpose(%s)" % (a, red) for a in mod.np_alias):
-                passed = "cols" if stored == "rows" else "rows"
-        if passed is None:
-            raise AnalysisError("%s.reduce_cell: argument of a_to_cell `%s` not understood" % (short, core.unparse(arg)))
+                  "second/third pick are not guarded by positive thresholds on |cross product| and plane distance: %s"
+                  % [(N.short(g[1], 60), g[2], float(g[3])) for g in g1 + g2], where,
+                  sample={"thresholds": [float(g[3]) for g in g1 + g2]})
+        # ---- layout
+        passed = "rows" if as_rows else "cols"
         want = a_to_cell_layout(mod)
         ctx.check(passed == want, "C18:layout:%s.reduce_cell:a_to_cell(%s)" % (short, passed),
                   "the reduced lattice vectors are the %s of the matrix handed to a_to_cell, which computes the metric X'X of a "
                   "matrix whose %s are the lattice vectors: the result has the right volume but is the cell of a different lattice"
-                  % (passed.upper(), want.upper()), core.loc(mod, ret[0]),
-                  sample={"stored_as": stored, "passed_as": passed, "a_to_cell_reads": want})
+                  % (passed.upper(), want.upper()), where,
+                  sample={"passed_as": passed, "a_to_cell_reads": want})
     ctx.not_decided += ["whether the search range contains the reduced basis of a given cell (real-valued)",
                         "that the three shortest independent vectors form a basis is the paper step"]
-    ctx.assumptions += ["C01: columns of form_a_mat are the lattice vectors; a_to_cell as analysed there"]
-    return ("reduce_cell decided by data-flow: candidates are integer combinations A.(i,j,k) sorted by length, picks are guarded "
-            "by positive collinearity/coplanarity thresholds, and the layout (rows/columns) in which the picked vectors reach "
-            "a_to_cell is compared with the layout a_to_cell's own body reads (E3).")
+    ctx.assumptions += ["C01: columns of form_a_mat are the lattice vectors; a_to_cell as analysed there",
+                        "argsort orders ascending; a search loop that finds no candidate (degenerate lattice) is outside the claim"]
+    return ("reduce_cell evaluated abstractly in both modules: the candidate table concretely over all index triples with a symbolic "
+            "basis, the sort as a symbolic sorted table, the two searches as first-hit summaries; decided on the results: rows are "
+            "integer combinations with their lengths, coverage of |u|,|v|,|w| <= 2, picks A.S[1], A.S[i*], A.S[j*], positive "
+            "collinearity / coplanarity guards on the right quantities, and the layout handed to a_to_cell against the layout its own "
+            "body reads.")
